@@ -150,8 +150,9 @@ def mutate_input(rng, data, wl, fmt, which):
         i = pick_seq_line()
         if i is None:
             return data
-        if len(data) < 100000:
-            lines[i] = lines[i] * rng.choice([50, 400])
+        # longer than any plausible line buffer (1 kB, 4 kB), short enough that the O(L^2) alignment of
+        # the resulting sequence stays far below the watchdog even under ASan and machine load
+        lines[i] = (lines[i] * rng.choice([50, 400]))[:rng.choice([1500, 5000, 9000])]
         return b'\n'.join(lines)
     if which == 'extra_block_row' and fmt != 'fasta':
         i = pick_seq_line()
